@@ -122,6 +122,15 @@ def ensure_facts(log=lambda s: None, need_corpus=True):
             meta['corpus_ok'] = (r2.returncode == 0)
             if r2.returncode != 0:
                 meta['errors'].append({'stage': 'corpus', 'stderr': r2.stderr[-12000:]})
+                have = {f.split('.')[0] for f in os.listdir(os.path.join(fdir, 'corpus'))}
+                members = [d for d in sorted(os.listdir(CORPUS_WS)) if os.path.isdir(os.path.join(CORPUS_WS, d, 'src'))]
+                meta['corpus_failed'] = [m for m in members if m not in have]
+                errs = {}
+                for line in r2.stderr.splitlines():
+                    for m in meta['corpus_failed']:
+                        if line.startswith(m + '/') and ' error' in line and m not in errs:
+                            errs[m] = line[:400]
+                meta['corpus_first_error'] = errs
         shutil.rmtree(target, ignore_errors=True)
         meta['extract_s'] = round(time.time() - t0, 1)
         meta['files'] = sorted(os.listdir(os.path.join(fdir, 'repo'))) + sorted(os.listdir(os.path.join(fdir, 'corpus')))
